@@ -304,7 +304,7 @@ fn miri_leg(pid: &str, thorough: bool, _seed: u64, m: &mut Merged) -> Vec<Value>
         // cases >= 200: concurrent callers of decompose_for_tropical on the same and on
         // other matrices under DIFFERENT tolerances; verdicts must equal the sequential ones
         if thorough {
-            vec![(200, 96), (201, 96), (202, 96), (203, 96)]
+            vec![(200, 96), (201, 96), (202, 96)]
         } else {
             vec![(200, 12)]
         }
